@@ -252,6 +252,44 @@ def cache_foundation(ctx):
     sharing.analyze(ctx, {"C13.a", "C13.b", "C13.c", "C13.d", "C13.f"})
 
 
+COMPILED_WRITERS = {
+    # (type, field): functions that may assign / mutably borrow it, with the reason.  Everything else only reads the compiled
+    # scanner: "tidying", "pruning" or patching a compiled automaton after the pipeline produced it is a change of the language.
+    ("CompiledDfa", "states"): (r"Minimizer::(add_representative_state|update_transitions)$|CompiledDfa as std::convert::From<", "filled by the conversions and the minimizer's reconstruction"),
+    ("CompiledDfa", "end_states"): (r"Minimizer::add_representative_state$|CompiledDfa as std::convert::From<", "as above"),
+    ("CompiledDfa", "lookaheads"): (r"CompiledDfa::(add_lookahead|try_from_pattern)$", "attached by add_lookahead (kernel.lookahead_wiring); try_from_pattern is the debugging constructor"),
+    ("CompiledDfa", "patterns"): (r"CompiledDfa as std::convert::From<", "set at construction"),
+    ("CompiledDfa", "terminal_ids"): (r"CompiledDfa as std::convert::From<", "set at construction"),
+    ("CompiledDfa", "current_states"): (r"CompiledDfa::find_from$", "simulation scratch (C12.d)"),
+    ("CompiledDfa", "next_states"): (r"CompiledDfa::find_from$", "simulation scratch (C12.d)"),
+    ("StateData", "transitions"): (r"Minimizer::update_transitions$|CompiledDfa as std::convert::From<", "filled by the conversions, renumbered by the minimizer"),
+    ("CompiledScannerMode", "name"): (r"^$", "never written after construction"),
+    ("CompiledScannerMode", "transitions"): (r"^$", "never written after construction"),
+    ("CompiledScannerMode", "dfa"): (r"ScannerImpl::peek_from$", "borrow path to the scratch buffers of the attempt"),
+    ("ScannerImpl", "scanner_modes"): (r"ScannerImpl::peek_from$", "borrow path to the scratch buffers of the attempt"),
+    ("ScannerImpl", "match_char_class"): (r"^$", "never written after construction"),
+    ("CompiledLookahead", "nfa"): (r"CompiledLookahead::satisfies_lookahead$", "borrow path to the lookahead automaton's scratch buffers"),
+    ("CompiledLookahead", "is_positive"): (r"^$", "never written after construction"),
+}
+
+
+def compiled_scanner_is_frozen(ctx, rule):
+    """Closed writer set of every field of the compiled scanner (type-qualified field writes and mutable borrows over all
+    functions of the crate; a helper the rules do not know writes on behalf of its callers)."""
+    F = ctx.facts
+    n = 0
+    for (adt, fld), (rx, why) in sorted(COMPILED_WRITERS.items()):
+        try:
+            ws = field_writers(F, adt, fld)
+        except Exception:
+            ws = {}
+        for w in sorted(ws):
+            n += 1
+            ctx.ob(rule, "compiled-scanner-writer:%s.%s<-%s" % (adt, fld, M.short_name(w)), re.search(rx, w) is not None,
+                   "%s writes or mutably borrows %s.%s (allowed: %s)" % (w, adt, fld, why), "")
+    ctx.floor(rule, "writers of compiled-scanner fields", n, 8)
+
+
 def language_foundation(ctx):
     """Side conditions of the regex->automaton pipeline (C02.a-g, C03.a-h) for properties whose statement
     presupposes that the automaton recognises the pattern languages."""
@@ -268,6 +306,7 @@ def language_foundation(ctx):
     minimizer_rules.analyze(ctx, {"C03.a", "C03.b", "C03.c", "C03.d", "C03.e", "C03.f", "C03.g", "C03.h"})
     from . import pC15
     pC15.parse_pipeline(ctx, "C02.k")   # the text parsed is the configured text, default parser configuration, every error returned
+    compiled_scanner_is_frozen(ctx, "C02.m")
     from . import adaptors
     adaptors.analyze(ctx, ("C02.j", "C03.i", "C08.f"))     # no loop of the pipeline drops, truncates or reorders elements
 
